@@ -396,6 +396,11 @@ func TestGenerated(t *testing.T) {
 	var dir string
 	var batch []item
 	n := 0
+	defer func() { // also when rapid.Check ends the test through Fatalf
+		if dir != "" {
+			os.RemoveAll(dir)
+		}
+	}()
 	rt.Check(t, 20000, 5000000, func(t *rapid.T) {
 		s := genString().Draw(t, "s")
 		for _, fn := range fns {
